@@ -368,8 +368,28 @@ def r103(ctx, prog, B, features, label=''):
                 ctx.unrecognised('R10.3', label + '%s:%s' % (name, desc), 'budget', 'closure too complex')
                 continue
             ctx.check(bool(acc), 'R10.3', label + '%s:%s' % (name, desc), 'arity-rejected', 'documented argument amount `%s` for %s: a call with %s is accepted by the code (a single value is passed as-is, several as a tuple)' % (doc[name][0], name, desc))
+    # the converse ("a wrong number of arguments yields an error, never a made-up value"): a builtin documented with a fixed maximum of two
+    # or more arguments rejects a call with one or two more, for every type of the arguments (added after seed `c10l`, whose
+    # `let [a, b, ..] = tuple.as_slice()` turned "exactly 2" into "at least 2")
+    m = 0
+    for name in sorted(B.closures):
+        if name not in doc:
+            continue
+        ar = docs_mod.arity_set(doc[name][0])
+        if ar is None or ar[1] is None or ar[1] < 2:
+            continue
+        hi = ar[1]
+        for k in (hi + 1, hi + 2):
+            acc = accepts(B, name, k)
+            m += 1
+            if acc is None:
+                ctx.unrecognised('R10.3', label + '%s:surplus %d' % (name, k), 'budget', 'closure too complex')
+                continue
+            ctx.check(not acc, 'R10.3', label + '%s:surplus %d' % (name, k), 'surplus-accepted', '%s is documented with at most %d arguments: a call with %d is rejected whatever the arguments are' % (name, hi, k))
     ctx.counters[label + 'arity_rows'] = n
+    ctx.counters[label + 'surplus_rows'] = m
     ctx.floor('R10.3', label + 'arity_rows', n, 49)
+    ctx.floor('R10.3', label + 'surplus_rows', m, 20)
 
 
 def r104(ctx, prog, B):
